@@ -270,7 +270,11 @@ def run(ctx):
                 exp = 'none'
             else:
                 raw = bytes.fromhex(spec_payload) if spec_payload != '-' else b''
-                if kind == 'wif':
+                if kind == 'bip38':
+                    # 39 bytes: 0142 (flag c0 / e0) or 0143 (EC-multiplied; flag 00 / 20 / 04 / 24), BIP38
+                    ok38 = len(raw) == 39 and ((raw[:2] == b'\x01\x42' and raw[2] in (0xc0, 0xe0)) or (raw[:2] == b'\x01\x43' and raw[2] in (0x00, 0x20, 0x04, 0x24)))
+                    exp = 'accept ' + raw.hex() if ok38 else 'none'
+                elif kind == 'wif':
                     known = any(NETWORK_DEFINITIONS[n]['prefix_wif'].lower() == raw[:1].hex() for n in NETWORK_DEFINITIONS)
                     if known and len(raw) in (33, 34) and (len(raw) == 33 or raw[-1] == 1):
                         exp = 'accept ' + raw[1:].hex()
@@ -445,6 +449,40 @@ def run(ctx):
         if r is not None:
             cases.append(('address ' + sgw, r, True))
     ctx.compare(cases, 'lengths', trigger_findings=f47, refusal_ok=True)
+    # BIP38 strings (the four vectors of the specification: plain, compressed, EC-multiplied without and with lot/sequence), opened
+    # with their passphrase: a string that is not the Base58Check encoding of a BIP38 payload is refused, whatever the passphrase
+    from bitcoinlib.keys import bip38_decrypt
+    VEC38 = [('6PRVWUbkzzsbcVac2qwfssoUJAN1Xhrg6bNk8J7Nzm5H7kxEbn2Nh2ZoGg', 'TestingOneTwoThree', 'cbf4b9f70470856bb4f40f80b87edb90865997ffee6df315ab166d713af433a5'),
+             ('6PYNKZ1EAgYgmQfmNVamxyXVWHzK5s6DGhwP4J5o44cvXdoY7sRzhtpUeo', 'TestingOneTwoThree', 'cbf4b9f70470856bb4f40f80b87edb90865997ffee6df315ab166d713af433a5'),
+             ('6PfQu77ygVyJLZjfvMLyhLMQbYnu5uguoJJ4kMCLqWwPEdfpwANVS76gTX', 'TestingOneTwoThree', 'a43a940577f4e97f5c4d39eb14ff083a98187c64ea7c99ef7ce460833959a519'),
+             ('6PgNBNNzDkKdhkT6uJntUXwwzQV8Rr2tZcbkDcuC9DZRsS6AtHts4Ypo1j', 'MOLON LABE', '44ea95afbf138356a05ea32110dfd627232d0f2991ad221187be356f19fa8190')]
+    items38 = []
+    for s38, pw38, sec38 in (VEC38 if T else [VEC38[ctx.seed % 2], VEC38[2 + ctx.seed % 2]]):
+        tail = [('sub', s38[:i] + c + s38[i + 1:]) for i in range(len(s38) - 8, len(s38)) for c in B58 if c != s38[i]]
+        ms = [('valid', s38)] + tail + mutants(s38, B58 + '0OIl', rng, False, 1500 if T else 250) + [damage(s38, rng, B58 + '0OIl') for _ in range(30)]
+        for k_, m in ms:
+            if not ok_token(m):
+                continue
+            for how38 in (('Key', 'bip38_decrypt') if k_ in ('valid', 'sub') else ('Key',)):
+                try:
+                    if how38 == 'Key':
+                        got = Key(m, password=pw38).private_hex
+                    else:
+                        got = bip38_decrypt(m, pw38)[0].hex()
+                except Exception:
+                    got = None
+                ctx.count('bip38:' + how38)
+                if got is None:
+                    py = 'none'
+                elif got == sec38:
+                    try:
+                        py = 'accept ' + b58dec_h(m)[:-4].hex()
+                    except Exception:
+                        py = 'accept not-base58'
+                else:
+                    py = 'accept another-key'
+                items38.append((m, py))
+    cmp_b58check(items38, 'bip38')
     sweep_b58check(wifs[:nq[2]], 'wif', True, 0)
     sweep_b58check(xkeys[:nq[3]], 'xkey', T, 1500)
     # every valid string of every class once, plus sampled mutants, so that all networks/prefixes are touched
